@@ -237,7 +237,7 @@ def reference_from_files(files: Dict[str, str]) -> dict:
             "static_p": static_p, "h": h, "table": table, "lattice": el["lattice"], "modes": modes}
 
 
-def oracle(files: Dict[str, str], files_alt: Optional[Dict[str, str]] = None, only: Optional[str] = None) -> List[dict]:
+def oracle(files: Dict[str, str], files_alt: Optional[Dict[str, str]] = None, only: Optional[str] = None, run=None) -> List[dict]:
     """Evaluate the property statement on the real code for these files.  Returns failure dicts
     {check, key, observed, expected}.  `files_alt`: same data with altered static table values (metamorphic)."""
     fails: List[dict] = []
@@ -246,7 +246,7 @@ def oracle(files: Dict[str, str], files_alt: Optional[Dict[str, str]] = None, on
         if only is None or only == check:
             fails.append({"check": check, "key": key, "observed": jsonable(observed), "expected": jsonable(expected)})
 
-    run = tvdata.Run(files)
+    run = run if run is not None else tvdata.Run(files)
     if run.error is not None:
         fail("runs", f"{type(run.error).__name__}: {run.error}", "a well-formed data set inside the pressure range is computed")
         return fails
@@ -375,6 +375,32 @@ def oracle(files: Dict[str, str], files_alt: Optional[Dict[str, str]] = None, on
 
 
 # ----------------------------------------------------------------------------- cases
+def history_oracle(files: Dict[str, str]) -> List[dict]:
+    """"read from those files": a calculation is determined by ITS files and settings, also when another calculation on the same
+    files ran earlier in the process.  In one directory: first A = the same two data files with a crystal system forced onto the
+    table (`cubic`, both ignore flags: the filling rewrites every component), then B = the case itself (data files untouched, own
+    settings file).  B must satisfy every clause of the statement as if it had run alone."""
+    import tempfile, shutil
+    st = yaml_load(files["settings.yaml"])
+    if ((st.get("elast") or {}).get("settings") or {}).get("symmetry", {}).get("system") not in (None, "triclinic"):
+        return []
+    a_files = tvdata.with_settings(files, {"elast": {"settings": {"symmetry": {"system": "cubic", "ignore_residuals": True, "ignore_rank": True}}}})
+    d = tempfile.mkdtemp(prefix="c05hist_")
+    try:
+        ra = tvdata.Run(a_files, workdir=d, settings_name="settings_a.yaml")
+        rb = tvdata.Run(files, workdir=d, settings_name="settings_b.yaml", write_data=False)
+        out = oracle(files, run=rb)
+        for f in out: f["check"] = "history:" + f["check"]
+        return out
+    finally:
+        shutil.rmtree(d, ignore_errors=True)
+
+
+def yaml_load(text):
+    import yaml
+    return yaml.safe_load(text)
+
+
 def alter_table(ds: synth.DataSet, rng: numpy.random.Generator, n_redundant: int = 0) -> synth.DataSet:
     """same keys / volumes / lattice, different table values (still consistent with the requested symmetry:
     redundant columns — the last `n_redundant` — are recomputed from the altered independent ones)"""
@@ -438,6 +464,13 @@ def run_cases(ctx: Ctx, res: Result, n_cases: int, small: bool, budget_s: float,
                 what=f"C05 {f['check']}" + (f" key {f['key']}" if f["key"] else ""),
                 input={"files": files, "files_alt": files_alt, "check": f["check"], "desc": label},
                 observed=f["observed"], expected=f["expected"], site=f"c05:{f['check']}"))
+        if desc["system"] is None and not fails:
+            for f in history_oracle(files)[:2]:
+                res.oracle_failures.append(OracleFailure(
+                    what=f"C05 {f['check']}" + (f" key {f['key']}" if f["key"] else "") + " (after another calculation on the same files in this process)",
+                    input={"files": files, "history": True, "check": f["check"], "desc": label},
+                    observed=f["observed"], expected=f["expected"], site=f"c05:{f['check']}"))
+            dist["history_cases"] = dist.get("history_cases", 0) + 1
         if any(f["check"] in ("runs", "grid", "keys") for f in fails):
             continue
         # ---- correspondence inputs (second run of the same files is avoided: observe inside oracle is cheap, redo)
@@ -500,7 +533,7 @@ def search(ctx: Ctx, res: Result):
 
 def replay(ctx: Ctx, payload) -> List[OracleFailure]:
     tvdata.warm_up()
-    fails = oracle(payload["files"], payload.get("files_alt"))
+    fails = history_oracle(payload["files"]) if payload.get("history") else oracle(payload["files"], payload.get("files_alt"))
     # the recorded clause first; any failing clause on this input keeps the violation alive
     fails.sort(key=lambda f: f["check"] != payload.get("check"))
     return [OracleFailure(what=f"C05 {f['check']}" + (f" key {f['key']}" if f["key"] else ""), input=payload,
